@@ -29,8 +29,12 @@ ATOMS = [(c, t, k) for c in COLS for t in TIMES for k in KINDS]
 # second palette: holds of length 0 (a hold all the same: "the last note of a column keeps its kind and length")
 KINDS0 = (None, 0, 500)
 ATOMS0 = [(c, t, k) for c in COLS for t in TIMES for k in KINDS0]
-PALETTES = {"std": ATOMS, "zero": ATOMS0}
+# third palette: fractional times and lengths (ordinary for BMS/StepMania/O2Jam charts), with a fractional gap
+TIMESF = (0, 100.5, 250.25, 400.75)
+ATOMSF = [(c, t, k) for c in COLS for t in TIMESF for k in (None, 50.5, 500)]
+PALETTES = {"std": ATOMS, "zero": ATOMS0, "frac": ATOMSF}
 GAPS = (0, 50, 150)
+PALETTE_GAPS = {"frac": (0, 50.5, 149.75)}
 THRS = (0, 100)
 TOL = 1e-9
 
@@ -39,9 +43,10 @@ def plan(tier):
     """[(game, max notes, orders, palette)]"""
     if tier == "quick":
         return [("osu", 3, ("rev",), "std"), ("osu", 2, ("fwd",), "std"), ("bms", 2, ("fwd", "rev"), "std"), ("sm", 2, ("fwd", "rev"), "std"), ("qua", 2, ("rev",), "std"), ("o2j", 2, ("rev",), "std"),
-                ("osu", 2, ("fwd", "rev"), "zero"), ("qua", 2, ("fwd",), "zero")]
+                ("osu", 2, ("fwd", "rev"), "zero"), ("qua", 2, ("fwd",), "zero"), ("bms", 2, ("fwd",), "frac"), ("osu", 2, ("rev",), "frac")]
     return [("osu", 4, ("rev",), "std"), ("osu", 3, ("fwd",), "std"), ("bms", 3, ("fwd", "rev"), "std"), ("sm", 3, ("fwd", "rev"), "std"), ("qua", 3, ("fwd", "rev"), "std"), ("o2j", 3, ("fwd", "rev"), "std"),
-            ("osu", 3, ("fwd", "rev"), "zero"), ("qua", 3, ("fwd", "rev"), "zero"), ("sm", 2, ("fwd",), "zero"), ("bms", 2, ("fwd",), "zero"), ("o2j", 2, ("fwd",), "zero")]
+            ("osu", 3, ("fwd", "rev"), "zero"), ("qua", 3, ("fwd", "rev"), "zero"), ("sm", 2, ("fwd",), "zero"), ("bms", 2, ("fwd",), "zero"), ("o2j", 2, ("fwd",), "zero"),
+            ("bms", 3, ("fwd", "rev"), "frac"), ("osu", 3, ("fwd", "rev"), "frac"), ("sm", 2, ("fwd",), "frac"), ("o2j", 2, ("fwd",), "frac"), ("qua", 2, ("fwd",), "frac")]
 
 
 def bound(tier, seed):
@@ -49,7 +54,8 @@ def bound(tier, seed):
         plan=[dict(game=g, max_notes=n, row_orders=list(o), palette=p) for g, n, o, p in plan(tier)],
         columns=list(COLS) + ["2 (always empty)"],
         times=list(TIMES),
-        kinds=dict(std=["hit", "hold 50", "hold 500"], zero=["hit", "hold 0", "hold 500"]),
+        kinds=dict(std=["hit", "hold 50", "hold 500"], zero=["hit", "hold 0", "hold 500"], frac=["hit", "hold 50.5", "hold 500"]),
+        frac_times=list(TIMESF), frac_gaps=list(PALETTE_GAPS["frac"]),
         gaps=list(GAPS),
         thresholds=list(THRS),
     )
@@ -84,7 +90,7 @@ def explore(root, tier, ctx):
     for i in range(root["start"], root["stop"]):
         notes = [PALETTES[pal][a] for a in _MS[n][i]]
         for order in orders:
-            for gap in GAPS:
+            for gap in PALETTE_GAPS.get(pal, GAPS):
                 for thr in THRS:
                     check_one(g, notes, order, gap, thr, ctx)
 
